@@ -56,6 +56,9 @@ def source_facts():
         # proposed fix: the marker-only list re-creates the empty stream
         "keepEmptyStream": bool(re.search(r"empty_stream\s*\(|Stream::new\s*\(", typ)),
         "marker_sites": len(re.findall(r'b"' + MARKER.decode() + '"', rdb_nc)),
+        # read_string reads in bounded chunks (since d4d929f) instead of vec![0u8; len]: the allocation bound itself is C10's
+        # (loader_alloc_bounded); here it only decides which allocation trace the real loader is compared with
+        "boundedRead": bool(re.search(r"read_to_end|\.take\s*\(", body("read_string") or "")) and not re.search(r"vec!\s*\[\s*0u8\s*;\s*len\s*\]", body("read_string") or ""),
     }
     cargo = open(os.path.join(REPO, "Cargo.toml")).read()
     m = re.search(r'^version\s*=\s*"([^"]+)"', cargo, re.M)
@@ -389,6 +392,12 @@ class C09:
     def close(self):
         self.impl.close()
         self.model.close()
+        # an impl driver that was killed or aborted (allocation refused) cannot remove its scratch directory itself
+        rd = os.path.join(CACHE, "run")
+        for d in (os.listdir(rd) if os.path.isdir(rd) else []):
+            m = re.match(r"rdb-(\d+)$", d)
+            if m and not os.path.exists("/proc/" + m.group(1)):
+                shutil.rmtree(os.path.join(rd, d), ignore_errors=True)
 
     def iask(self, line):
         a = self.impl.ask(line)
@@ -573,7 +582,10 @@ class C09:
         """populate a real server with commands, SAVE, stop it, wait, start a new one on the same directory and read
         everything back with point reads (TYPE/GET/LLEN+LINDEX/SCARD+SISMEMBER/HLEN+HGET/ZCARD+ZSCORE/XLEN+XRANGE id id/PTTL/DBSIZE)"""
         import time as _t
+        import server
         from server import Server
+        if os.environ.get("VERIF_SERVER_BIN"):      # only for sanity tests against a deliberately different build
+            server.SERVER_BIN = os.environ["VERIF_SERVER_BIN"]
         rep = self.rep
 
         def score_text(bits):
@@ -725,7 +737,7 @@ class C09:
         rep = self.rep
         rep.evaluations += 1
         r = self.lean_dec(0, f)        # first pass only for the allocation trace
-        if r[2] > (64 << 20) and name != "alloc-256MiB":
+        if r[2] > (64 << 20) and name != "alloc-256MiB" and not self.facts.get("boundedRead"):
             rep.count("file.skipped-alloc>64MiB")
             self.notes["alloc_over_64MiB_files"] = self.notes.get("alloc_over_64MiB_files", 0) + 1
             return
@@ -742,7 +754,7 @@ class C09:
         if w[0] != r[0]:
             self.disagreements.append({"what": "corrupted file: real loader says %s, model says %s" % (w[0], r[0] + ("" if r[0] == "ok" else " " + str(r[3]))), "name": name, "file": hx(f[:2000])})
             return
-        if r[2] >= (1 << 20) and int(w[3]) < r[2]:
+        if r[2] >= (1 << 20) and int(w[3]) < r[2] and not self.facts.get("boundedRead"):
             self.disagreements.append({"what": "model allocation trace has %d bytes, real loader's largest request was %s" % (r[2], w[3]), "name": name, "file": hx(f[:200])})
         if w[0] == "ok":
             _, ads = self.dump()
@@ -935,7 +947,12 @@ def main(tier, seed):
     rep.extra["source_facts"] = facts
     ok, log, errs = proof_phase(rep, families=[FAMILY])
     build_harness(FAMILY)
-    build_server()
+    if os.environ.get("VERIF_SERVER_BIN"):
+        pass          # sanity test against a separately built server: never build into the shared cache from another source tree
+    elif os.path.realpath(REPO) != "/repo":
+        raise InternalError("FERROUS_REPO is overridden: set VERIF_SERVER_BIN to a server built elsewhere (the shared cache is for /repo only)")
+    else:
+        build_server()
     c = C09(rep, facts)
     try:
         c.run(seed, tier)
